@@ -362,10 +362,13 @@ class Fn:
     def call(self, e):
         f = e.func
         pat = dotted(f)
-        if e.keywords and pat in self.spec.get("kwcalls", {}) and not e.args:
-            # a declared constructor called with keywords: the arguments in the declared order
+        if e.keywords and pat in self.spec.get("kwcalls", {}) and all(k.arg is not None for k in e.keywords):
+            # a declared constructor called with keywords (after positional arguments): the arguments in the declared order
             head, names, argtys, rty = self.spec["kwcalls"][pat]
             given = {k.arg: k.value for k in e.keywords}
+            if len(e.args) > len(names) or any(n in given for n in names[:len(e.args)]):
+                raise Unsupported("call %s: positional and keyword arguments overlap" % pat)
+            given.update(zip(names, e.args))
             if sorted(given) != sorted(names):
                 raise Unsupported("call %s with keywords %s" % (pat, sorted(given)))
             args = [self.expr(given[n]) for n in names]
@@ -418,7 +421,7 @@ class Fn:
             if tk == "str" and td == "none":
                 return "(alookup %s %s)" % (k, a), "option str"
         if isinstance(f, ast.Name) and f.id == "str" and len(e.args) == 1 and self.expr(e.args[0])[1] == "nat":
-            self.notes.append("str(uuid) is the identity on handles (a handle is an opaque token)")
+            self.notes.append("str(x) of an opaque token (a uuid handle, the id() of an object) is the token")
             return self.expr(e.args[0])
         if isinstance(f, ast.Name) and f.id == "tuple" and len(e.args) == 1 and self.expr(e.args[0])[1].startswith("list "):
             self.notes.append("tuple(x) of a value declared a sequence is its elements in order (a snapshot of them)")
@@ -1209,6 +1212,25 @@ SPECS = [
          eff_calls={"process_variable": dict(fn="(fun (_ : unit) v_ => process v_ {<collector>})", args=["unit", "V"], ret="(R * bool)", updates=["<collector>"])},
          stmt_calls={"node.parent.add_child": dict(fn="(fun r_ => attach_to_parent node r_ {<collector>})", updates=["<collector>"], args=["R"]),
                      "node.add_children": dict(fn="add_children {node.children} (depth_of node)", updates=["node.children"], args=["list N"])}),
+    # ---- one variable: identity first, then a new id and a table entry (C07; the consumer's callee in the traversal, C05)
+    dict(group="Collect", name="gen_process_variable", path="processor/variable_processor.py", cls=None, func="process_variable",
+         params="{V O T M R X C TB : Type} (name_of : V -> str) (orig_of : V -> option str) (obj_of : V -> O) (identity_of : O -> nat) "
+                "(type_of : O -> T) (type_name : T -> str) (text_of : T -> O -> str) (mods_of : str -> M) (check_id : C -> nat -> option nat) "
+                "(new_var_id : C -> nat -> nat * C) (mk_ref : nat -> str -> M -> option str -> R) (mk_variable : str -> str -> nat -> bool -> X) "
+                "(append_variable : TB -> nat -> X -> TB) (max_string_length : Z) (cache : C) (table : TB) (node : V)",
+         ret="(C * TB) * (R * bool)", args=["var_collector", "node"],
+         env={"node.value": ("(obj_of node)", "O"), "node.name": ("(name_of node)", "str"), "node.original_name": ("(orig_of node)", "option str"),
+              "var_collector.max_string_length": ("max_string_length", "Z"), "variable_type.__name__": ("(type_name {variable_type})", "str")},
+         state={"<cache>": ("cache", "C"), "<table>": ("table", "TB")}, state_names={"<cache>": "cache", "<table>": "table"},
+         calls={"id": ("identity_of", ["O"], "nat"), "var_modifiers": ("mods_of", ["str"], "M"),
+                "var_collector.check_id": ("check_id {<cache>}", ["nat"], "option nat"),
+                "VariableId": ("mk_ref", ["nat", "str", "M", "option str"], "R"),
+                "type": ("type_of", ["O"], "T"), "variable_to_string": ("text_of", ["T", "O"], "str"),
+                "truncate_string": ("gen_truncate_string", ["str", "Z"], "(str * bool)"),
+                "Variable": ("(fun ty_ val_ id_ (_ : list str) tr_ => mk_variable ty_ val_ id_ tr_)", ["str", "str", "nat", "list str", "bool"], "X")},
+         kwcalls={"VariableResponse": ("pair", ["variable_id", "process_children"], ["R", "bool"], "(R * bool)")},
+         eff_calls={"var_collector.new_var_id": dict(fn="new_var_id {<cache>}", args=["nat"], ret="nat", updates=["<cache>"])},
+         stmt_calls={"var_collector.append_variable": dict(fn="append_variable {<table>}", updates=["<table>"], args=["nat", "X"])}),
     # ---- child discovery: the depth gate, the collection-size cap, private-name correction (C05, C06)
     dict(group="Children", name="gen_correct_names", path="processor/variable_processor.py", cls=None, func="correct_names",
          params="(name val : str)", ret="str", args=["name", "val"], env={"name": ("name", "str"), "val": ("val", "str")}),
@@ -1273,7 +1295,7 @@ SPECS = [
 GROUPS = {           # generated file -> (imports, which properties' theorems are stated over it)
     "Limits": ("From Deep Require Import Base Limiter PureSupport.", ["C04"]),
     "Match": ("From Deep Require Import Base Match PureSupport.", ["C03"]),
-    "Collect": ("From Deep Require Import Base PureSupport.", ["C05"]),
+    "Collect": ("From Deep Require Import Base PureSupport.", ["C05", "C07"]),
     "Children": ("From Deep Require Import Base PureSupport.", ["C05", "C02"]),
     "Render": ("From Deep Require Import Base PureSupport.", ["C02"]),
     "Truth": ("From Deep Require Import Base Config PureSupport.", ["C10", "C19"]),
